@@ -686,6 +686,320 @@ static void runAd(Ctx& c, Rng& rng, const char* name, unsigned runs, unsigned nO
 	runBox(c, rng, box, runs, nOps);
 }
 
+#if VF_PART == 6
+// ================================================================ property-level value semantics without model lines
+// DataSelection / DataConstSelection (copy, move, both assignments, Swap, self forms, the conversions to ConstSelection),
+// hash containers over the string specialisation of HashTraits (default-constructed traits), InsertResult.
+#include <string_view>
+
+static std::string ptrList(const std::vector<const void*>& v, const std::vector<const void*>& base) {
+	// raws printed as their position in `base` (the rows of both tables in creation order), never as addresses
+	std::string r = "[";
+	for (size_t i = 0; i < v.size(); ++i) { if (i) r += ' '; auto it = std::find(base.begin(), base.end(), v[i]); r += it == base.end() ? std::string("?") : std::to_string(it - base.begin()); }
+	return r + "]";
+}
+
+struct XData14 : public momo::DataSettings<true> {
+	static const momo::CheckMode checkMode = momo::CheckMode::exception;
+	static const momo::ExtraCheckMode extraCheckMode = momo::ExtraCheckMode::nothing;
+	static const bool checkVersion = true;
+};
+
+template<typename MM>
+struct SelCases {
+	typedef momo::DataColumnList<momo::DataColumnTraits<>, MM, momo::DataItemTraits<MM>, XData14> CL;
+	typedef momo::DataTable<CL> Table;
+	typedef typename Table::Selection Sel;
+	typedef typename Table::ConstSelection CSel;
+	typedef typename Table::ConstRowReference CRef;
+	Ctx& c; Rng& rng;
+	std::optional<Table> tab[2];
+	std::vector<const void*> base;      // every raw of both tables
+	static const int NKIND = 4;         // 0 empty, 1 three rows (inside the internal capacity 4), 2 every third row, 3 all rows
+
+	SelCases(Ctx& c_, Rng& r_) : c(c_), rng(r_) {}
+	void tables() {
+		tab[0].reset(); tab[1].reset(); base.clear();
+		for (int t = 0; t < 2; ++t) {
+			CL cl(MgrId<MM>::make(t + 1)); cl.Add(vfIntCol); tab[t].emplace(std::move(cl));
+			int n = t ? 9 : 14;
+			for (int i = 0; i < n; ++i) tab[t]->AddRow(vfIntCol = t * 100 + i);
+			for (size_t i = 0; i < tab[t]->GetCount(); ++i) base.push_back(tab[t]->mRaws[i]);
+		}
+	}
+	static bool pick(int kind, int v) { int x = v % 100; return kind == 3 || (kind == 2 && x % 3 == 0) || (kind == 1 && x >= 2 && x < 5); }
+	Sel make(int t, int kind, Sel*) { if (kind == 0) return tab[t]->SelectEmpty(); return tab[t]->Select([kind](CRef r) { return pick(kind, r[vfIntCol]); }); }
+	CSel make(int t, int kind, CSel*) { const Table& ct = *tab[t]; if (kind == 0) return ct.SelectEmpty(); return ct.Select([kind](CRef r) { return pick(kind, r[vfIntCol]); }); }
+
+	// everything a selection consists of; `block` = its heap block (null while the raws sit in the internal buffer)
+	struct St {
+		std::vector<const void*> raws; std::vector<int> vals; const void* cl = nullptr; const void* ver = nullptr; size_t verVal = 0;
+		const void* block = nullptr; size_t count = 0; int mgr = 0;
+		bool same(const St& x) const { return raws == x.raws && vals == x.vals && cl == x.cl && ver == x.ver && verVal == x.verVal && count == x.count; }
+	};
+	template<typename S> static St get(const S& s) {
+		St x; x.count = s.GetCount(); x.cl = &s.GetColumnList(); x.mgr = MgrId<MM>::get(s.GetMemManager());
+		size_t off = s.GetColumnList().GetOffset(vfIntCol);
+		for (size_t i = 0; i < s.mRaws.GetCount(); ++i) { x.raws.push_back(s.mRaws[i]); x.vals.push_back(CL::template GetByOffset<const int>(s.mRaws[i], off)); }
+		const auto& vk = (const typename S::VersionKeeper&)s;      // (private base: only a C-style cast reaches it) x.ver = vk.mContainerVersion; x.verVal = vk.mVersion;
+		x.block = (!s.mRaws.mData.pvIsInternal() && s.mRaws.mData.mItems != nullptr) ? (const void*)s.mRaws.mData.mItems : nullptr;
+		return x;
+	}
+	std::string show(const St& x) { return fmt("{rows %s of table %s, keeper %s/%zu, manager %d, %s}", ptrList(x.raws, base).c_str(), which(x.cl), whichVer(x.ver), x.verVal, x.mgr, x.block ? "heap block" : "internal buffer"); }
+	const char* which(const void* cl) { return cl == &tab[0]->GetColumnList() ? "0" : cl == &tab[1]->GetColumnList() ? "1" : "?"; }
+	const char* whichVer(const void* v) { return v == &tab[0]->mCrew.GetRemoveVersion() ? "table 0" : v == &tab[1]->mCrew.GetRemoveVersion() ? "table 1" : v == nullptr ? "null" : "?"; }
+
+	std::string what;
+	void expect(bool ok, const char* claim, const St& got, const St& exp) {
+		c.stats.evaluations++;
+		if (!ok) c.fail("C14 selection %s: %s: got %s, expected %s", what.c_str(), claim, show(got).c_str(), show(exp).c_str());
+	}
+	// reads every row through the public interface (operator[] + column access: the version check and, under ASan, the memory)
+	template<typename S> bool readable(const S& s, const St& exp) {
+		try { for (size_t i = 0; i < s.GetCount(); ++i) if (s[i][vfIntCol] != exp.vals[i]) return false; size_t n = 0; for (auto r : s) { (void)r; ++n; } return n == exp.count; }
+		catch (const std::invalid_argument&) { return false; }
+	}
+	// "empty, destructible, clearable, swappable and assignable"
+	template<typename S> void sourceAfterMove(S& src, const S& other, const char* op) {
+		c.stats.evaluations++;
+		if (src.GetCount() != 0 || !src.IsEmpty() || src.GetBegin() != src.GetEnd()) c.fail("C14 selection %s: source of %s is not empty (count %zu)", what.c_str(), op, src.GetCount());
+		src.Clear();
+		{ S t(other); t.Swap(src); St a = get(src), b = get(other); expect(a.same(b) && t.GetCount() == 0, "moved-from selection swapped with a copy", a, b); }
+		src = other;
+		St a = get(src), b = get(other); expect(a.same(b) && readable(src, b), "moved-from selection assigned", a, b);
+	}
+
+	template<typename S> void pairCases(const char* sname) {
+		S* tag = nullptr;
+		for (int ta = 0; ta < 2; ++ta) for (int ka = 0; ka < NKIND; ++ka) {
+			std::string an = fmt("%s a = table %d kind %d", sname, ta, ka);
+			// ---- copy construction: equal, deep, independent in both directions, either side may die first
+			{
+				what = an + "; S b(a)";
+				S a = make(ta, ka, tag); St sa = get(a);
+				{
+					S b(a); St sb = get(b);
+					expect(sb.same(sa) && sb.mgr == sa.mgr + MgrId<MM>::sel, "copy equals the source", sb, sa);
+					expect(get(a).same(sa) && get(a).block == sa.block, "source unchanged by the copy", get(a), sa);
+					expect(sb.block == nullptr || sb.block != sa.block, "copy owns its own block", sb, sa);
+					expect(readable(b, sa), "copy readable", sb, sa);
+					mutate(b, tag); expect(get(a).same(sa) && readable(a, sa), "source unchanged after the copy was mutated", get(a), sa);
+				}
+				expect(get(a).same(sa) && readable(a, sa), "source intact after the copy died", get(a), sa);
+				std::optional<S> o; o.emplace(make(ta, ka, tag)); S b2(*o); St s2 = get(*o);
+				mutate(*o, tag); expect(get(b2).same(s2), "copy unchanged after the source was mutated", get(b2), s2);
+				o.reset(); expect(get(b2).same(s2) && readable(b2, s2), "copy intact after the source died", get(b2), s2);
+				c.stats.count("sel.copy_ctor");
+			}
+			// ---- move construction: exactly the former object (same block), source empty and reusable
+			{
+				what = an + "; S m(std::move(a))";
+				S a = make(ta, ka, tag); St sa = get(a);
+				S m(std::move(a)); St sm = get(m);
+				expect(sm.same(sa) && sm.block == sa.block && sm.mgr == sa.mgr, "target of the move is the former source", sm, sa);
+				expect(readable(m, sa), "target readable", sm, sa);
+				sourceAfterMove(a, m, "move construction");
+				c.stats.count("sel.move_ctor");
+			}
+			// ---- self forms
+			{
+				what = an + "; self assignment / self swap";
+				S a = make(ta, ka, tag); St sa = get(a); S& r = a;
+				a = r; expect(get(a).same(sa) && get(a).block == sa.block && get(a).mgr == sa.mgr, "a = a changes nothing", get(a), sa);
+				a = std::move(r); expect(get(a).same(sa) && get(a).block == sa.block && get(a).mgr == sa.mgr, "a = std::move(a) changes nothing", get(a), sa);
+				a.Swap(r); expect(get(a).same(sa) && get(a).block == sa.block && get(a).mgr == sa.mgr, "a.Swap(a) changes nothing", get(a), sa);
+				swap(a, r); expect(get(a).same(sa) && get(a).block == sa.block, "swap(a, a) changes nothing", get(a), sa);
+				expect(readable(a, sa), "readable after the self forms", get(a), sa);
+				c.stats.count("sel.self_forms");
+			}
+			for (int tb = 0; tb < 2; ++tb) for (int kb = 0; kb < NKIND; ++kb) {
+				std::string bn = fmt("; b = table %d kind %d", tb, kb);
+				// ---- copy assignment
+				{
+					what = an + bn + "; a = b";
+					S a = make(ta, ka, tag), b = make(tb, kb, tag); St sb = get(b);
+					a = b; St sa = get(a);
+					expect(sa.same(sb) && sa.mgr == sb.mgr + MgrId<MM>::sel, "target equals the source", sa, sb);
+					expect(get(b).same(sb) && get(b).block == sb.block && get(b).mgr == sb.mgr, "source unchanged", get(b), sb);
+					expect(sa.block == nullptr || sa.block != sb.block, "target owns its own block", sa, sb);
+					mutate(a, tag); expect(get(b).same(sb) && readable(b, sb), "source unchanged after the target was mutated", get(b), sb);
+					c.stats.count("sel.copy_assign");
+				}
+				// ---- move assignment
+				{
+					what = an + bn + "; a = std::move(b)";
+					S a = make(ta, ka, tag), b = make(tb, kb, tag); St sb = get(b);
+					a = std::move(b); St sa = get(a);
+					expect(sa.same(sb) && sa.block == sb.block && sa.mgr == sb.mgr, "target is the former source", sa, sb);
+					expect(readable(a, sb), "target readable", sa, sb);
+					sourceAfterMove(b, a, "move assignment");
+					c.stats.count("sel.move_assign");
+				}
+				// ---- swap: exact exchange, nothing allocated
+				{
+					what = an + bn + "; a.Swap(b)";
+					S a = make(ta, ka, tag), b = make(tb, kb, tag); St sa = get(a), sb = get(b);
+					unsigned long allocs = led().allocs;
+					if (rng.below(2)) a.Swap(b); else swap(a, b);
+					expect(get(a).same(sb) && get(a).block == sb.block && get(a).mgr == sb.mgr, "a holds the former b", get(a), sb);
+					expect(get(b).same(sa) && get(b).block == sa.block && get(b).mgr == sa.mgr, "b holds the former a", get(b), sa);
+					expect(readable(a, sb) && readable(b, sa), "both readable", get(a), sb);
+					if (led().allocs != allocs) c.fail("C14 selection %s: Swap allocated %lu blocks", what.c_str(), led().allocs - allocs);
+					a.Swap(b);
+					expect(get(a).same(sa) && get(b).same(sb), "second Swap restores both", get(a), sa);
+					c.stats.count("sel.swap");
+				}
+			}
+		}
+	}
+	void mutate(Sel& s, Sel*) {
+		switch (rng.below(4)) {
+		case 0: s.Clear(); break;
+		case 1: if (s.GetCount() > 0) s.Remove(0, 1); else s.Add((*tab[&s.GetColumnList() == &tab[0]->GetColumnList() ? 0 : 1])[0]); break;
+		case 2: s.Add((*tab[&s.GetColumnList() == &tab[0]->GetColumnList() ? 0 : 1])[1]); break;
+		default: s.Reserve(40); s.Sort([](CRef a, CRef b) { return a[vfIntCol] > b[vfIntCol]; }); if (s.GetCount() < 2) s.Clear(); break;
+		}
+	}
+	void mutate(CSel& s, CSel*) {
+		const Table& ct = *tab[&s.GetColumnList() == &tab[0]->GetColumnList() ? 0 : 1];
+		switch (rng.below(3)) {
+		case 0: s.Clear(); break;
+		case 1: if (s.GetCount() > 0) s.Remove(0, 1); else s.Add(ct[0]); break;
+		default: s.Add(ct[1]); break;
+		}
+	}
+
+	// the version keeper travels with the rows: after Swap / assignment a selection is invalidated by a removal in the table its
+	// rows now come from, and by nothing else
+	template<typename S> void keeperCases(const char* sname) {
+		S* tag = nullptr;
+		for (int form = 0; form < 4; ++form) for (int victim = 0; victim < 2; ++victim) {
+			tables();
+			static const char* forms[4] = { "a.Swap(b)", "a = b", "a = std::move(b)", "S a2(b) (a2 replaces a)" };
+			what = fmt("%s a = table 0 all rows; b = table 1 all rows; %s; then table %d removes its last row", sname, forms[form], victim);
+			S a = make(0, 3, tag), b = make(1, 3, tag); St sa = get(a), sb = get(b);
+			std::optional<S> a2;
+			switch (form) { case 0: a.Swap(b); break; case 1: a = b; break; case 2: a = std::move(b); break; default: a2.emplace(b); break; }
+			S& x = form == 3 ? *a2 : a;             // holds rows of table 1 now
+			tab[victim]->Remove(tab[victim]->GetCount() - 1);
+			bool rx = readable(x, sb);
+			c.stats.evaluations++;
+			if (rx != (victim != 1)) c.fail("C14 selection %s: the selection that holds the rows of table 1 is %s", what.c_str(), rx ? "still readable (its version keeper did not travel with the rows)" : "rejected although table 1 was not modified");
+			if (form == 0) {                        // b holds rows of table 0
+				bool rb = readable(b, sa);
+				c.stats.evaluations++;
+				if (rb != (victim != 0)) c.fail("C14 selection %s: the selection that holds the rows of table 0 is %s", what.c_str(), rb ? "still readable (its version keeper did not travel with the rows)" : "rejected although table 0 was not modified");
+			}
+			c.stats.count("sel.keeper_cases");
+		}
+		tables();
+	}
+
+	// conversions Selection -> ConstSelection: `const&` copies, `&&` steals
+	void conversions() {
+		Sel* tag = nullptr;
+		for (int t = 0; t < 2; ++t) for (int k = 0; k < NKIND; ++k) {
+			what = fmt("ConstSelection from Selection of table %d kind %d", t, k);
+			Sel a = make(t, k, tag); St sa = get(a);
+			{ CSel cs = static_cast<const Sel&>(a); St sc = get(cs);
+			  expect(sc.same(sa) && (sc.block == nullptr || sc.block != sa.block), "conversion from const& copies", sc, sa);
+			  expect(get(a).same(sa) && get(a).block == sa.block, "source unchanged by the conversion", get(a), sa);
+			  cs.Clear(); expect(get(a).same(sa) && readable(a, sa), "source unchanged after the converted copy was cleared", get(a), sa); }
+			CSel cm = std::move(a); St sm = get(cm);
+			expect(sm.same(sa) && sm.block == sa.block, "conversion from && takes the rows over", sm, sa);
+			expect(readable(cm, sa), "converted selection readable", sm, sa);
+			c.stats.evaluations++;
+			if (a.GetCount() != 0) c.fail("C14 selection %s: source of the && conversion still holds %zu rows", what.c_str(), a.GetCount());
+			c.stats.count("sel.conversions");
+		}
+	}
+	void run() {
+		tables();
+		pairCases<Sel>("Selection"); pairCases<CSel>("ConstSelection");
+		conversions();
+		keeperCases<Sel>("Selection"); keeperCases<CSel>("ConstSelection");
+		tab[0].reset(); tab[1].reset();
+		if (led().bad) { c.fail("C14 ledger: selections: %s", led().badText.c_str()); led().bad = 0; led().badText.clear(); }
+		if (!led().live.empty()) { c.fail("C14 leak: selections: %zu blocks (managers %s) outstanding after tables and selections died", led().live.size(), showSet(led().liveIds()).c_str()); led().live.clear(); }
+		c.stats.nontrivial("selections");
+	}
+};
+
+// ---- hash containers whose HashTraits is the string specialisation (HashTraits.h:175-186), default-constructed
+template<typename MM>
+static void stringTraitsCases(Ctx& c, Rng& rng) {
+	typedef momo::HashTraits<std::string> Traits;
+	typedef momo::HashSet<std::string, Traits, MM> Set;
+	typedef momo::HashMap<std::string, uint32_t, Traits, MM> Map;
+	auto key = [](uint32_t i) { return "key-" + std::to_string(i) + std::string(i % 7, 'x'); };   // some beyond the small-string buffer
+	auto setIs = [&](const Set& s, const std::set<std::string>& ref, const char* what) {
+		c.stats.evaluations++;
+		std::set<std::string> got; for (const std::string& k : s) got.insert(k);
+		if (got != ref || s.GetCount() != ref.size()) { c.fail("C14 string-traits HashSet: %s: holds %zu keys, expected %zu", what, s.GetCount(), ref.size()); return; }
+		for (const std::string& k : ref) {
+			// the specialisation accepts std::string, std::string_view and const char* arguments
+			if (!s.ContainsKey(k) || !s.ContainsKey(std::string_view(k)) || !s.ContainsKey(k.c_str())) { c.fail("C14 string-traits HashSet: %s: key %s not found by string / string_view / const char*", what, k.c_str()); return; }
+		}
+		if (s.ContainsKey(std::string_view("absent")) || s.ContainsKey("absent")) c.fail("C14 string-traits HashSet: %s: absent key found", what);
+	};
+	for (unsigned n : { 0u, 1u, 5u, 40u, 300u }) {
+		std::set<std::string> ref;
+		Set a{ Traits(), MgrId<MM>::make(1) };
+		for (unsigned i = 0; i < n; ++i) { a.Insert(key(i)); ref.insert(key(i)); }
+		setIs(a, ref, "filled");
+		{ Set b(a); setIs(b, ref, "copy"); b.Insert("extra"); b.Remove(key(0)); setIs(a, ref, "source after the copy was mutated"); }
+		setIs(a, ref, "source after the copy died");
+		{ std::optional<Set> o; o.emplace(a); Set b(*o); o->Clear(); setIs(b, ref, "copy after the source was cleared"); o.reset(); setIs(b, ref, "copy after the source died"); }
+		{ Set b(a); Set m(std::move(b)); setIs(m, ref, "move-constructed"); c.stats.evaluations++; if (b.GetCount() != 0) c.fail("C14 string-traits HashSet: moved-from source holds %zu keys", b.GetCount()); b.Clear(); b = m; setIs(b, ref, "moved-from source assigned again"); }
+		{ Set b{ Traits(), MgrId<MM>::make(2) }; b.Insert("only-b"); std::set<std::string> rb{ "only-b" }; Set a2(a);
+		  a2.Swap(b); setIs(a2, rb, "Swap: a holds the former b"); setIs(b, ref, "Swap: b holds the former a");
+		  Set& r = b; b = r; setIs(b, ref, "self copy assignment"); b = std::move(r); setIs(b, ref, "self move assignment"); b.Swap(r); setIs(b, ref, "self swap");
+		  a2 = b; setIs(a2, ref, "copy assignment"); setIs(b, ref, "source of the copy assignment");
+		  Set d{ Traits(), MgrId<MM>::make(3) }; d = std::move(a2); setIs(d, ref, "move assignment"); c.stats.evaluations++; if (a2.GetCount() != 0) c.fail("C14 string-traits HashSet: source of the move assignment holds %zu keys", a2.GetCount()); }
+		// map: values must travel with their keys
+		Map m1{ Traits(), MgrId<MM>::make(4) }; std::map<std::string, uint32_t> mref;
+		for (unsigned i = 0; i < n; ++i) { m1.Insert(key(i), i * 3 + 1); mref[key(i)] = i * 3 + 1; }
+		auto mapIs = [&](const Map& m, const std::map<std::string, uint32_t>& r, const char* what) {
+			c.stats.evaluations++;
+			if (m.GetCount() != r.size()) { c.fail("C14 string-traits HashMap: %s: holds %zu pairs, expected %zu", what, m.GetCount(), r.size()); return; }
+			for (auto& kv : r) { auto p = m.Find(std::string_view(kv.first)); if (!p || p->value != kv.second) { c.fail("C14 string-traits HashMap: %s: key %s missing or wrong value", what, kv.first.c_str()); return; } }
+		};
+		{ Map m2(m1); mapIs(m2, mref, "copy"); m2[std::string("extra")] = 7; m2.Remove(key(0)); mapIs(m1, mref, "source after the copy was mutated");
+		  Map m3(std::move(m2)); c.stats.evaluations++; if (m2.GetCount() != 0) c.fail("C14 string-traits HashMap: moved-from source holds %zu pairs", m2.GetCount());
+		  m2 = m1; mapIs(m2, mref, "moved-from source assigned again"); m3.Swap(m2); mapIs(m3, mref, "Swap"); }
+		mapIs(m1, mref, "source after everything else died");
+		c.stats.count("string_traits.sizes"); c.stats.nontrivial(fmt("string_traits#%u", n));
+		(void)rng;
+	}
+	if (led().bad) { c.fail("C14 ledger: string-traits containers: %s", led().badText.c_str()); led().bad = 0; led().badText.clear(); }
+	if (!led().live.empty()) { c.fail("C14 leak: string-traits containers: %zu blocks outstanding", led().live.size()); led().live.clear(); }
+}
+
+// ---- InsertResult (IteratorUtility.h:131-172): user-written copy constructor / copy assignment / default constructor
+template<typename C, typename Ins, typename Deref>
+static void insertResultCase(Ctx& c, const char* name, Ins ins, Deref keyAt) {
+	typedef typename C::InsertResult IR;
+	C cont;
+	for (uint32_t k : { 40u, 10u, 30u }) ins(cont, k);
+	IR r1 = ins(cont, 20);                   // inserted
+	IR r0 = ins(cont, 30);                   // already there
+	auto same = [&](const IR& x, const IR& y) { return x.position == y.position && x.inserted == y.inserted; };
+	auto chk = [&](bool ok, const char* what) { c.stats.evaluations++; if (!ok) c.fail("C14 InsertResult of %s: %s", name, what); };
+	chk(r1.inserted && keyAt(r1.position) == 20 && !r0.inserted && keyAt(r0.position) == 30, "Insert reports (position of the key, inserted)");
+	IR d;                                    // default: empty position, not inserted
+	chk(!d.inserted && d.position == decltype(d.position)(), "default-constructed result is (empty position, false)");
+	IR c1(r1), c0(r0);
+	chk(same(c1, r1) && same(c0, r0) && keyAt(c1.position) == 20 && keyAt(c0.position) == 30, "copy construction copies position and flag");
+	chk(same(r1, c1) && r1.inserted && !r0.inserted, "copy construction leaves the source unchanged");
+	d = r1; chk(same(d, r1) && keyAt(d.position) == 20, "copy assignment copies position and flag (inserted = true)");
+	d = r0; chk(same(d, r0) && keyAt(d.position) == 30 && !d.inserted, "copy assignment copies position and flag (inserted = false)");
+	chk(same(r0, c0) && same(r1, c1), "copy assignment leaves the source unchanged");
+	IR& self = d; d = self; chk(same(d, r0), "self assignment changes nothing");
+	c1 = IR(); chk(!c1.inserted && c1.position == decltype(d.position)() && same(r1, IR(r1)), "assignment from a default-constructed result; copies are independent");
+	c.stats.count("insert_result.cases"); c.stats.nontrivial(std::string("insert_result#") + name);
+}
+#endif
+
 int main(int argc, char** argv)
 {
 	Ctx c = parseArgs(argc, argv);
@@ -753,6 +1067,18 @@ int main(int argc, char** argv)
 #define RUN(AT) runW<UMultiMapAd<ElemNM, AT>>(c, rng, "ummap_nm", wr, nOps);
 	ALL_TRAITS(RUN)
 #undef RUN
+#elif VF_PART == 6
+	{ SelCases<SAMM> sc(c, rng); sc.run(); }
+	{ SelCases<SlMM> sc(c, rng); sc.run(); }
+	stringTraitsCases<SAMM>(c, rng);
+	{
+		typedef momo::HashSet<uint32_t> HS; typedef momo::HashMap<uint32_t, uint32_t> HM;
+		typedef momo::TreeSet<uint32_t> TS; typedef momo::TreeMap<uint32_t, uint32_t> TM;
+		insertResultCase<HS>(c, "HashSet", [](HS& s, uint32_t k) { return s.Insert(k); }, [](HS::ConstPosition p) { return *p; });
+		insertResultCase<HM>(c, "HashMap", [](HM& m, uint32_t k) { return m.Insert(k, k + 1); }, [](HM::ConstPosition p) { return p->key; });
+		insertResultCase<TS>(c, "TreeSet", [](TS& s, uint32_t k) { return s.Insert(k); }, [](TS::ConstIterator p) { return *p; });
+		insertResultCase<TM>(c, "TreeMap", [](TM& m, uint32_t k) { return m.Insert(k, k + 1); }, [](TM::ConstIterator p) { return p->key; });
+	}
 #endif
 	return c.finish();
 }
